@@ -43,6 +43,12 @@ type hostCfg struct {
 	Spell int `json:"spell,omitempty"`
 	// RealmQ: the advertised realm URL carries a query of its own (?tenant=acme) without which the token service refuses
 	RealmQ bool `json:"realmq,omitempty"`
+	// NoCred: the client holds no credential for this registry (it is used anonymously).
+	NoCred bool `json:"nocred,omitempty"`
+	// Service: the service name the Bearer challenge advertises ("" the registry's own host). A registry chooses this
+	// string freely - it may be another registry's host name; the realm then ends in /for-<registry> so that the token
+	// service knows whom it serves.
+	Service string `json:"service,omitempty"`
 }
 
 func spell(k int, word string) string {
@@ -76,9 +82,9 @@ type Scenario struct {
 	ID       int                `json:"id"`
 	Cache    string             `json:"cache"` // shared | single | none
 	Hosts    map[string]hostCfg `json:"hosts"`
-	Phases   [][]Req            `json:"phases"`   // requests of one phase run concurrently
-	Coalesce bool               `json:"coalesce"` // schedule policy: registry sends before token-service sends
-	Change   map[string]hostCfg `json:"change"`   // scheme change applied before the last phase (or before phase ChangeAt)
+	Phases   [][]Req            `json:"phases"`             // requests of one phase run concurrently
+	Coalesce bool               `json:"coalesce"`           // schedule policy: registry sends before token-service sends
+	Change   map[string]hostCfg `json:"change"`             // scheme change applied before the last phase (or before phase ChangeAt)
 	ChangeAt int                `json:"changeat,omitempty"` // 0: before the last phase; k > 0: before phase k (0-based)
 	Seed     int64              `json:"seed"`
 }
@@ -197,6 +203,10 @@ func (w *world) RoundTrip(req *http.Request) (*http.Response, error) {
 	}
 	authz := req.Header.Get("Authorization")
 	isToken := strings.HasPrefix(req.URL.Path, "/token")
+	tokFor := ""
+	if i := strings.Index(req.URL.Path, "/for-"); isToken && i >= 0 {
+		tokFor = map[string]string{"A": hostA, "B": hostB}[req.URL.Path[i+5:]]
+	}
 	kind := "registry"
 	if isToken {
 		kind = "token"
@@ -222,7 +232,7 @@ func (w *world) RoundTrip(req *http.Request) (*http.Response, error) {
 		scheme = strings.ToLower(f[0])
 	}
 	w.tr.Emit(map[string]any{"e": "send", "id": id, "n": n, "dest": host, "kind": kind, "method": req.Method, "authscheme": scheme,
-		"secrets": findSecrets(authz, req.URL.RawQuery, body), "tokhost": tokHost, "tokscopes": tokScopes, "service": service,
+		"secrets": findSecrets(authz, req.URL.RawQuery, body), "tokhost": tokHost, "tokscopes": tokScopes, "service": service, "tokfor": tokFor,
 		"asked": parseScopes(asked)})
 	w.s.Gate(kind, id)
 	if v, _ := req.Context().Value(dlKey{}).(int); v == 2 && isToken {
@@ -242,7 +252,11 @@ func (w *world) RoundTrip(req *http.Request) (*http.Response, error) {
 	}
 	if isToken {
 		// the token service: any credential material is accepted; the token names the service and the scopes asked for
-		if w.hosts[service].RealmQ && req.URL.Query().Get("tenant") != "acme" {
+		owner := service
+		if tokFor != "" {
+			owner = tokFor
+		}
+		if w.hosts[owner].RealmQ && req.URL.Query().Get("tenant") != "acme" {
 			return resp(403, nil, "") // not the realm URL the registry advertised
 		}
 		w.issued++
@@ -251,7 +265,7 @@ func (w *world) RoundTrip(req *http.Request) (*http.Response, error) {
 		for _, s := range sc {
 			ss = append(ss, s.Type+":"+s.Name+":"+strings.Join(s.Actions, ","))
 		}
-		tok := fmt.Sprintf("TOK|%s|%s|%d", service, strings.Join(ss, " "), w.issued)
+		tok := fmt.Sprintf("TOK|%s|%s|%d", owner, strings.Join(ss, " "), w.issued)
 		key := "token"
 		if req.Method == http.MethodPost {
 			key = "access_token"
@@ -279,7 +293,11 @@ func (w *world) RoundTrip(req *http.Request) (*http.Response, error) {
 		if cfg.RealmQ {
 			q = "?tenant=acme"
 		}
-		return resp(401, http.Header{"Www-Authenticate": {fmt.Sprintf(`%s realm="http://%s/token%s",service="%s",scope="%s"`, spell(cfg.Spell, "Bearer"), cfg.Realm, q, host, need)}}, "")
+		svc, path := host, "/token"
+		if cfg.Service != "" {
+			svc, path = cfg.Service, "/token/for-"+hostTag(host)
+		}
+		return resp(401, http.Header{"Www-Authenticate": {fmt.Sprintf(`%s realm="http://%s%s%s",service="%s",scope="%s"`, spell(cfg.Spell, "Bearer"), cfg.Realm, path, q, svc, need)}}, "")
 	}
 }
 
@@ -296,7 +314,7 @@ func runScenario(t *testing.T, sc *Scenario, tr *vh.Tracer) (hang bool) {
 				<-ctx.Done()
 				return auth.EmptyCredential, ctx.Err()
 			}
-			if c, ok := w.hosts[host]; ok {
+			if c, ok := w.hosts[host]; ok && !c.NoCred {
 				return creds(host, c.Flow), nil
 			}
 			return auth.EmptyCredential, nil
@@ -452,6 +470,34 @@ func genScenario(rng *rand.Rand, id int) Scenario {
 	return sc
 }
 
+// aliasScenario: one registry is used with credentials; the other is used anonymously and advertises, in its Bearer
+// challenge, the first one's host name as its service (a registry chooses that string freely). Nothing the client holds
+// for the first registry may travel to the second or to the second's realm.
+func aliasScenario(rng *rand.Rand) Scenario {
+	sc := Scenario{Cache: []string{"shared", "single", "none"}[rng.Intn(3)], Hosts: map[string]hostCfg{}, Seed: rng.Int63()}
+	own, anon := hostA, hostB
+	if rng.Intn(2) == 0 {
+		own, anon = hostB, hostA
+	}
+	sc.Hosts[own] = hostCfg{Scheme: "bearer", Flow: []string{"password", "refresh", "access"}[rng.Intn(3)], Realm: []string{own, hostT}[rng.Intn(2)]}
+	sc.Hosts[anon] = hostCfg{Scheme: "bearer", Flow: "password", NoCred: true, Service: own, Realm: []string{anon, hostT, own}[rng.Intn(3)],
+		RealmQ: rng.Intn(3) == 0}
+	id0 := 0
+	req := func(h string) Req {
+		id0++
+		r := Req{ID: id0, Host: h, Repo: []string{"r1", "r2"}[rng.Intn(2)], Method: []string{"GET", "PUT"}[rng.Intn(2)]}
+		if rng.Intn(2) == 0 {
+			r.Hints = strings.Fields(scopePool[rng.Intn(len(scopePool))])
+		}
+		return r
+	}
+	sc.Phases = [][]Req{{req(own)}, {req(anon)}, {req(anon), req(own)}, {req(anon)}}
+	if rng.Intn(2) == 0 {
+		sc.Phases = sc.Phases[1:]
+	}
+	return sc
+}
+
 func TestDrive(t *testing.T) {
 	out := os.Getenv("VH_OUT")
 	if out == "" {
@@ -486,6 +532,11 @@ func TestDrive(t *testing.T) {
 	} else {
 		for i := 0; i < count; i++ {
 			run(genScenario(rng, i+1))
+		}
+		// scripted, from a stream of their own (the stream above stays what it was)
+		arng := rand.New(rand.NewSource(seed*7919 + 13))
+		for i := 0; i < vh.EnvInt("VH_ALIAS", 1+count/10); i++ {
+			run(aliasScenario(arng))
 		}
 	}
 	// scope canonicalisation, directly
